@@ -206,6 +206,10 @@ def seq(cap: int, a0: int, a1: int, a2: int, a3: int, b0: int, b1: int, b2: int,
         return True
     kis = [a0, a1, a2, a3]
     pis = [b0, b1, b2, b3]
+    if h.SEL.get("pathonly"):
+        # only path operations, all on one path
+        if o2 < 3 or o3 < 3 or b0 or b1 or b2 or b3:
+            return True
     for j in range(4):
         if j >= n and (ops[j] != 0 or kis[j] != 0 or pis[j] != 0):
             return True  # unused trailing positions are pinned
@@ -299,6 +303,8 @@ def queries(tier):
             for op1 in range(5):
                 for op2 in range(5):
                     qs.append({"id": "seq4.%s.%s.%s" % (OPS[op0], OPS[op1], OPS[op2]), "fn": "seq", "sel": {"n": 4, "op0": op0, "op1": op1, "op2": op2}, "timeout": 1500})
+    # commit histories of one path: sync / fetch_paths only, 4 operations (overwrite, revert, read)
+    qs.append({"id": "pathseq4", "fn": "seq", "sel": {"n": 4, "op0": 3, "op1": 3, "pathonly": True}, "timeout": 600})
     qs.append({"id": "opt.int", "fn": "opt_int", "sel": {}, "timeout": 60})
     qs.append({"id": "opt.bool", "fn": "opt_bool", "sel": {}, "timeout": 60})
     qs.append({"id": "opt.other", "fn": "opt_other", "sel": {}, "timeout": 60})
